@@ -76,6 +76,15 @@ def run(ctx):
                 ctx.violation("C04:iter:n=%s" % bad["nstr"], "RangeIterTrace rejects the iterator's behaviour for n=%s seed=%s (rejected=%s): chosen row / generator / "
                               "start / outputs differ from the specification's walk, or a size is wrongly rejected/accepted" % (bad["nstr"], bad["seed"], bad["rejected"]),
                               replay={"property": "C04", "trace_spec": "RangeIterTrace", "run": [table, bad]})
+    pick = next((e for e in its if e.get("complete") and not e.get("rejected") and len(e.get("outs", [])) >= 3), None)
+    if pick is not None and os.environ.get("VF_SELFTEST", "0") == "1":
+        bad = dict(pick, outs=[pick["outs"][0]] + pick["outs"][:-1])       # first value twice, last value missing
+        p = os.path.join(ctx.scratch, "c04-selftest.ndjson")
+        vf.write_ndjson(p, [table, bad])
+        ok, _ = ctx.tlc_trace("RangeIterTrace", p, timeout=600, xmx="3g")
+        if ok:
+            raise vf.Inconclusive("binding self-test failed: RangeIterTrace accepted an iteration with a repeated and a missing value")
+        ctx.step("selftest-RangeIterTrace", corrupted="an output repeated, another one missing", rejected=True)
     for e in events[1:4] + events[-3:]:
         ctx.sample({k: (v if k != "outs" else v[:6]) for k, v in e.items() if k not in ("r1", "r2")})
     ctx.assumptions += ["cyclic-group lemma (see level note)", "rand.Seed(s) makes the two rand.Int63 draws of newRangeIterator reproducible"]
